@@ -434,14 +434,28 @@ fn plain_run(mut src: ScriptedRead, cfg: &RCfg, len: usize, fault: Option<(usize
     let mut later_read = None;
     let reads_at_first = it.get_ref().call;
     if fault_given && caught.is_none() && cfg.max_size != MaxSz::Default && !matches!(first_err, Some(ErrRec::Read { .. })) && it.get_ref().call > 0 {
+        // ... until the run ends, or the reader is stuck on an error without asking its source for anything any more
+        // (a header error is reported again and again: twelve such answers in a row and nothing new will come)
+        let mut stuck = 0;
         for _ in 0..(4 * len + 64) {
             it.get_mut().begin_api_call();
+            let reads_before = it.get_ref().call;
             match next_ev(&mut it, step_budget(len, oks.len() + 32)) {
                 Ev::Err(e @ ErrRec::Read { .. }) => {
                     later_read = Some(e);
                     break;
                 }
-                Ev::Item(..) | Ev::Err(_) => {}
+                Ev::Err(_) => {
+                    if it.get_ref().call == reads_before {
+                        stuck += 1;
+                        if stuck >= 12 {
+                            break;
+                        }
+                    } else {
+                        stuck = 0;
+                    }
+                }
+                Ev::Item(..) => stuck = 0,
                 Ev::None => break,
                 Ev::Caught(cg) => {
                     caught = Some(cg);
